@@ -28,6 +28,7 @@ TRUSTED = ["python timeline monitor (props/C18.py) as the independent oracle on 
 GOSSIP_MS = 40
 GRACE_MS = 10000
 BOUND_MS = 30000
+RERUN_BOUND_MS = 12000   # confirmation / shrinking runs of a scenario that already failed once
 DELAY_MS = 200
 
 
@@ -40,11 +41,11 @@ def cs(s):
 
 
 # ------------------------------------------------------------------ scenarios
-def scenario(cid, lose, mode, phase, endpoints, closing=None, mid_ms=0):
+def scenario(cid, lose, mode, phase, endpoints, closing=None, mid_ms=0, bound_ms=None):
     n = sum(len(e["listeners"]) for e in endpoints)
     return {"id": cid, "lose": lose, "mode": mode, "phase": phase, "gossip_ms": GOSSIP_MS, "grace_ms": GRACE_MS,
             "delay_ms": DELAY_MS, "endpoints": endpoints, "closing": closing or (["shutdown", "ctx"] * n)[:n],
-            "bound_ms": BOUND_MS, "mid_ms": mid_ms}
+            "bound_ms": bound_ms or BOUND_MS, "mid_ms": mid_ms}
 
 
 def corpus():
@@ -124,6 +125,11 @@ def monitor(sc, o):
             if not m or m.group(1) != r["ep"]:
                 return {"sig": "wrong-upstream", "why": "request for %s at %s (%s) answered 200 with %r: not an upstream of %s"
                                                          % (r["ep"], r["node"], r["stage"], r["body"], r["ep"])}
+    # --- a listener never gives up unless it is closed locally or its context is cancelled
+    for l in o["listeners"]:
+        if l.get("returned"):
+            return {"sig": "listener-gave-up", "why": "listener %s/%d (connected to %s when %s was lost) had Accept return %r %d ms after the loss although it was neither closed locally nor its context cancelled"
+                                                       % (l["endpoint"], l["idx"], l["at_loss"], lost, l["returned"], l.get("returned_ms", 0) - o["loss_at_ms"])}
     # --- graceful: terminates within the grace period, withdraws, publishes the marker
     if mode == "graceful":
         if o["loss_ms"] > o["grace_ms"]:
@@ -158,7 +164,10 @@ def monitor(sc, o):
         pstat = post[0]["status"] if post else "absent"
         if final == "active" or pstat == "active":
             return {"sig": "still-active", "why": "%s still has the lost node %s as active %d ms after the loss (status changes %r)"
-                                                   % (s["node"], lost, BOUND_MS, tl)}
+                                                   % (s["node"], lost, sc["bound_ms"], tl)}
+        if pstat == "absent" and final == "absent" and len(tl) >= 2 and tl[-2] in ("left", "unreachable"):
+            pstat = tl[-2]          # forgotten after the 60 s node expiry (only scenarios that ran that long): C11
+            tl = tl[:-1]
         if mode == "graceful" and pstat != "left":
             return {"sig": "not-left", "why": "%s ended with status %r for the gracefully departed %s (status changes %r)" % (s["node"], pstat, lost, tl)}
         if "left" in tl and any(x != "left" for x in tl[tl.index("left"):]):
@@ -173,15 +182,12 @@ def monitor(sc, o):
     want = {}
     for l in o["listeners"]:
         want[l["endpoint"]] = want.get(l["endpoint"], 0) + 1
-        if l.get("returned"):
-            return {"sig": "listener-gave-up", "why": "listener %s/%d (connected to %s when %s was lost) had Accept return %r %d ms after the loss although it was neither closed locally nor its context cancelled"
-                                                       % (l["endpoint"], l["idx"], l["at_loss"], lost, l["returned"], l.get("returned_ms", 0) - o["loss_at_ms"])}
         if l["at_loss"] == lost and (len(l["backends"]) < 2 or l["backends"][-1] == lost):
             return {"sig": "no-reconnect", "why": "listener %s/%d was connected to %s and never reconnected to a survivor (connections: %r)"
                                                    % (l["endpoint"], l["idx"], lost, l["backends"])}
     if o["rereg_ms"] < 0:
         return {"sig": "not-reregistered", "why": "within %d ms not every listener was registered on a survivor: registered %r, wanted %r"
-                                                   % (BOUND_MS, o["registered"], want)}
+                                                   % (sc["bound_ms"], o["registered"], want)}
     for ep, n in want.items():
         got = sum(o["registered"][s].get(ep, 0) for s in surv)
         if got != n:
@@ -189,7 +195,7 @@ def monitor(sc, o):
     # --- requests succeed again from every survivor
     for r in o["recovery"]:
         if r["ok_ms"] < 0:
-            return {"sig": "no-recovery", "why": "requests for %s at survivor %s never succeeded again (%d tries in %d ms)" % (r["ep"], r["node"], r["tries"], BOUND_MS)}
+            return {"sig": "no-recovery", "why": "requests for %s at survivor %s never succeeded again (%d tries in %d ms)" % (r["ep"], r["node"], r["tries"], sc["bound_ms"])}
     for s in surv:
         for ep in eps:
             post = [r for r in o["requests"] if r["stage"] == "post" and r["node"] == s and r["ep"] == ep]
@@ -455,6 +461,7 @@ def run(ctx):
             continue
         seen.add(f["sig"])
         # timing-dependent: confirm on a second run of the same scenario before raising an alarm about the tree
+        sc = dict(sc, bound_ms=RERUN_BOUND_MS)
         again = run_scenarios(binary, wd, [dict(sc, id=sc["id"] + "-again")], tag="again")[0]
         f2 = monitor(sc, again)
         if f2 is None:
@@ -463,9 +470,9 @@ def run(ctx):
             unreproduced.append({"scenario": sc["id"], "sig": f["sig"], "why": f["why"]})
             continue
         small, so, sf = sc, again, f2
-        if f2["sig"] != "panic":
+        if f2["sig"] != "panic" and len(seen) <= 2:
             try:
-                cand = shrink(binary, wd, sc, f2["sig"])
+                cand = shrink(binary, wd, sc, f2["sig"], budget=4)
                 if cand is not sc:
                     co = run_scenarios(binary, wd, [cand], tag="shrunk")[0]
                     cf_ = monitor(cand, co)
@@ -484,7 +491,7 @@ def run(ctx):
         d = dis[0]
         sc, o = scs[d["scenario"]], outs[d["scenario"]]
         # search harder: the same scenario twice more and its graceful/crash twin
-        extra = [dict(sc, id=sc["id"] + "-again%d" % i) for i in range(2)]
+        extra = [dict(sc, id=sc["id"] + "-again%d" % i, bound_ms=RERUN_BOUND_MS) for i in range(2)]
         eouts = run_scenarios(binary, wd, extra, tag="again")
         found = None
         for ec, eo in zip(extra, eouts):
